@@ -17,6 +17,10 @@ CHECKS = {
    "TLA+ spec BytesFilter.tla model-checked by TLC and every enumerated New/Add/Extend transition replayed on real util.BytesFilter values; law predicates of UtilLaws.tla evaluated by TLC on (function, input, output) pairs recorded from the real util functions",
    "BytesFilter half: TLC enumerates all states of up to 3 filters over 5 (thorough: 6) keys that collide in one hash bucket and share 3-byte prefixes, every Add/Extend(0..1 keys) transition is executed on real filters through both constructor families and the whole Contains table compared; exhaustive within bounds. Laws half: TLC is a law evaluator over ~56k (thorough ~1M) recorded pairs: all byte strings up to length 3 (4) over a 20-byte alphabet for each function, every rune with a non-trivial simple-fold orbit as a label case variant, structured and random longer strings. The first half is model checking with conformance replay; the second is exploration judged by TLA+ predicates.",
    "TLC, Json/IOUtils; unicode.SimpleFold for case variants; keys picked with a re-implemented hash", "DESIGN.md 3.12, 5/C19"),
+ "C20": ("model_checking",
+   "TLA+ specs Registry.tla (registration list, sort, dispatch table) and RenderWalk.tla model-checked by TLC; every enumerated configuration instantiated as a real goldmark.New with probe parsers/transformers/renderers and the invocation log and output compared with the model",
+   "TLC enumerates, per component class (inline parsers on a shared trigger, triggered and trigger-less block parsers, paragraph transformers, AST transformers, node renderers for one kind), every injective assignment of 3 probes to 5 priority ranks around the built-in, every accept and trigger script, every registration order and every route (option vs extension) and checks on the model that log and winner depend on priorities alone; each configuration (112k quick) is run on the real library under adjacent, wide and MinInt/MaxInt priority scales. RenderWalk.tla enumerates all trees of 4 (5) nodes with kinds that have a renderer, skip children, or have no renderer function (created before/after first use). Exhaustive within bounds.",
+   "TLC, Json; built-in priorities as documented in parser.DefaultBlockParsers/DefaultInlineParsers/DefaultParagraphTransformers and the HTML renderer's 1000", "DESIGN.md 3.3, 5/C20"),
 }
 
 NOT_YET = "check not built yet in this revision of /verif (see DESIGN.md section 5 for the planned TLA+ decision procedure)"
